@@ -79,3 +79,11 @@ Definition unknown_chan_sanity (in_amt in_cltv amt_to_forward outgoing_cltv : Z)
   else if unknown_chan_cltv_delta_too_small (unknown_chan_cltv_delta in_cltv outgoing_cltv)
        then RErr "IncorrectCLTVExpiry"
   else ROk tt.
+
+(** channel.rs [validate_update_fee] and [can_accept_incoming_htlc]: the two dust-exposure gates each,
+    in the order of the code; the four comparisons are the generated (anchored) expressions. [l] / [r]
+    are [local_stats] / [remote_stats] [.commitment_stats.dust_exposure_msat]. *)
+Definition update_fee_dust_ok (l r max_dust : Z) : bool :=
+  negb (fee_local_dust_over l r max_dust) && negb (fee_remote_dust_over l r max_dust).
+Definition accept_htlc_dust_ok (l r max_dust : Z) : bool :=
+  negb (accept_remote_dust_over l r max_dust) && negb (accept_local_dust_over l r max_dust).
